@@ -81,7 +81,12 @@ func nilResultsOnlyWithErrors(p *Prog, r *Report, rule string, fns []*ssa.Functi
 // unguardedDeref: an instruction that dereferences v (field address, load,
 // index through a pointer to array, or a call of a pointer-receiver method of
 // the module on v), provided v is never compared with nil in its function.
-func unguardedDeref(v ssa.Value) ssa.Instruction {
+func unguardedDeref(v ssa.Value) ssa.Instruction { return unguardedDerefD(v, 0) }
+
+func unguardedDerefD(v ssa.Value, depth int) ssa.Instruction {
+	if depth > 3 {
+		return nil
+	}
 	refs := v.Referrers()
 	if refs == nil {
 		return nil
@@ -107,7 +112,7 @@ func unguardedDeref(v ssa.Value) ssa.Instruction {
 			}
 		case *ssa.Call:
 			if f := x.Call.StaticCallee(); f != nil && InModule(f) && f.Signature.Recv() != nil && len(x.Call.Args) > 0 && x.Call.Args[0] == v && f.Blocks != nil && len(f.Params) > 0 {
-				if unguardedDeref(f.Params[0]) != nil {
+				if unguardedDerefD(f.Params[0], depth+1) != nil {
 					found = x
 				}
 			}
